@@ -18,6 +18,11 @@ CLAIMS["C03"] = ("SSA path rules over the token-driven decoder (epoch-scoped mus
  "Trusted: go/ssa + go/types, refmt/cbor honouring its DecodeOptions, cid.Cast. Not covered: tokenizer strictness (minimal heads, NaN detection happen in refmt), fidelity of accepted values.",
  "DESIGN.md section 3, C03")
 
+CLAIMS["C10"] = ("recursion-depth dataflow over the decoders' static call cycles, epoch-scoped budget must-pass, clamp/charge provenance of size hints, integer taint to allocation sizes, classified explicit panics over a parser-local call-graph closure, loop progress",
+ "Structural necessary conditions of 'total and bounded' over parser-local code reachable from the registered decoders, CompileSelector, the walk functions and ParsePath: every decoder recursion passes a guarded depth+k; every committing assembler call in the CBOR decoder is behind a budget decrement-and-test in its token epoch (proportional to the token length for strings/bytes/keys); size hints clamped and charged; untrusted integers reach allocation sizes only behind a dominating bound; every reachable explicit panic is an exhaustive-switch default or a frozen, side-condition-checked contract entry; every decoder loop consumes input. Bounds the mechanisms, does not measure allocation or exclude implicit panics.",
+ "Trusted: go/ssa + go/types + CHA resolution of the parser packages' own interfaces; refmt tokenizers terminate and bound themselves; datamodel.Node implementations honour the node contract. Not covered: the allocation inequality itself, implicit panics (index/nil/reflect), termination over cyclic user data.",
+ "DESIGN.md section 3, C10")
+
 NOT_APPLICABLE = {
  "C13": "concerns the output of running the code generator on arbitrary schemas and the run-time equivalence of two engines; the generator's logic lives in text/template strings, so no typed program exists to analyse before execution (DESIGN.md section 4)",
 }
